@@ -107,6 +107,27 @@ pub fn oracle(scn: &SenderScn, ctx: &Ctx, trace: &SenderTrace) {
         violate(ctx, "C14/transfer-events", "-", e.clone());
     }
     let txs = fdtview::fdt_transmissions(&trace.pkts);
+    // degenerate inputs must not stall the sender: at ONE fixed instant (a poll drains the sender until it
+    // answers 'nothing to send') the number of packets is bounded by what the objects and the FDT can send without
+    // the clock advancing (every object at most one burst of its transfers and one more transfer, FDT instances)
+    {
+        let max_fdt = txs.iter().map(|t| t.pkts.len()).max().unwrap_or(1) as u64 + 1;
+        let max_tr = tr.list.iter().map(|t| t.pkts.len()).max().unwrap_or(0) as u64 + 1;
+        let per_obj: u64 = scn.objects.iter().map(|o| (o.max_transfer_count.max(1) as u64 + 2) * (max_tr + max_fdt)).sum();
+        let n_ops = scn.ops.len() as u64 + 2;
+        let bound = 4 * per_obj + 4 * n_ops * max_fdt + 64;
+        for (pi, p) in trace.polls.iter().enumerate() {
+            if p.n_pkts as u64 > bound {
+                violate(
+                    ctx,
+                    "C14/sender-stalls-the-caller-at-a-fixed-instant",
+                    "-",
+                    format!("poll {} at +{} us returned {} packets without ever answering 'nothing to send' at that instant (bound {})", pi, p.t_us.saturating_sub(t0_us()), p.n_pkts, bound),
+                );
+                break;
+            }
+        }
+    }
     for (i, o) in scn.objects.iter().enumerate() {
         let toi = match trace.obj_toi[i] {
             Some(t) => t,
